@@ -8,6 +8,7 @@ package llamarunner
 import (
 	"fmt"
 	"os"
+	"regexp"
 	"strconv"
 	"strings"
 	"testing"
@@ -442,9 +443,11 @@ func (h *v7llH) flush(header string) {
 	h.out.Count("llh_cases")
 	h.out.Add("llh_events", len(h.events))
 	seen := map[string]bool{}
+	perKind := map[string]int{}
 	for _, f := range h.fails {
-		if !seen[f[0]] {
-			seen[f[0]] = true
+		if k := llDedupKey(f[0], f[1]); !seen[k] && perKind[f[0]] < 8 {
+			seen[k] = true
+			perKind[f[0]]++
 			h.out.L2(f[0], line, f[1])
 		}
 	}
@@ -647,4 +650,16 @@ func TestVerifC07LLHist(t *testing.T) {
 		r := root.Fork()
 		bubble(func() { v7llGenerate(r, out) })
 	}
+}
+
+var (
+	llReNum  = regexp.MustCompile(`-?\d+`)
+	llReList = regexp.MustCompile(`(#,)+#`)
+)
+
+// shape of an L2 record: kind + detail with numbers and lists of numbers collapsed (a failure must not hide a
+// later, different failure of the same kind in the same history)
+func llDedupKey(kind, detail string) string {
+	d := llReNum.ReplaceAllString(detail, "#")
+	return kind + "|" + llReList.ReplaceAllString(d, "#")
 }
